@@ -128,6 +128,13 @@ func CheckCase(c Case) *ev.Violation {
 		if w := cl.TerminalCellWidth(); w != wantW {
 			return ev.V("%s: TerminalCellWidth()=%d but the longest line of %q is %d cells wide", where, w, text, wantW)
 		}
+		// the list handed out is the caller's: whatever it does with it, the cell still has its lines
+		for i := range got {
+			got[i] = "scribbled by the caller"
+		}
+		if again := cl.Lines(); len(again) != len(want) || (len(want) > 0 && again[0] != want[0]) {
+			return ev.V("%s: after the caller overwrote the list Cell.Lines() had handed out, Cell.Lines() gives %q, want %q", where, again, want)
+		}
 		return nil
 	}
 	if v := check("NewCell", &cell); v != nil {
